@@ -398,6 +398,59 @@ def run_twin(case):
     return {'calls': len(seq) + 2, 'hits': hits, 'key': repr(case)}
 
 
+# -- E3: nothing of a dropped handler stays behind ------------------------------
+def leak_cases():
+    out = []
+    for variant in ('dispatcher', 'world'):
+        for per_cycle in (1, 2):
+            for between in ('nothing', 'dispatch', 'toggle'):
+                out.append((variant, per_cycle, between))
+    return out
+
+
+def run_leak(case):
+    """k cycles of: register fresh listeners, dispatch, drop them.  What is
+    reachable from the dispatcher afterwards (generic object graph, dead
+    weak references included) must not depend on k: a registration that
+    outlives its handler is a handler that is still registered."""
+    from mc.canon import canon, digest
+    variant, per_cycle, between = case
+    keys = {}
+    for cycles in (1, 2, 6):
+        envx = Env()
+        envx.log = []
+        d = desper.EventDispatcher() if variant == 'dispatcher' \
+            else desper.World()
+        for _ in range(cycles):
+            objs = []
+            for i in range(per_cycle):
+                o = Late(envx, i)
+                o._h = i + 1
+                objs.append(o)
+                d.add_handler(o)
+            d.dispatch('go', 0)
+            del o
+            del objs[:]
+            gc.collect()
+            if between == 'dispatch':
+                d.dispatch('go', 1)
+            elif between == 'toggle':
+                d.dispatch_enabled = False
+                d.dispatch('go', 2)
+                d.dispatch_enabled = True
+        keys[cycles] = digest(canon((d,)))
+    if len(set(keys.values())) != 1:
+        raise Violation(
+            'dropped_handler_leaves_nothing_behind',
+            f'{case}: the object graph reachable from the dispatcher after '
+            f'1, 2 and 6 register / dispatch / drop cycles differs '
+            f'({[k for k in keys]} -> {len(set(keys.values()))} distinct '
+            f'graphs): registrations of dead handlers pile up',
+            variant=variant)
+    return {'calls': 9, 'hits': {'register_drop_cycles': 1},
+            'key': repr(case)}
+
+
 # -- E2: components removed while dispatching is disabled ---------------------
 def _make_removal_class():
     @desper.event_handler('on_remove')
@@ -552,6 +605,11 @@ def run(tier, rep):
         'length (deliveries compared as a multiset of (token, listener); '
         'events dispatched while disabled when nobody listened are free - '
         'C04 - and set aside)',
+        'part registration-leak (E3): after k = 1, 2, 6 cycles of register '
+        '/ dispatch / drop (optionally a further dispatch or a disable-'
+        'dispatch-enable between cycles) the generic object graph reachable '
+        'from the dispatcher is the same - "no longer registered" also '
+        'means that no record of the registration piles up',
         'part detached-while-disabled (E2): the postponed on_remove is what '
         'still refers to a component detached while dispatching is '
         'disabled; once it is delivered (the program enables again after '
@@ -577,6 +635,11 @@ def run(tier, rep):
     kernel.enumerate_cases(run_twin, twin_cases(tier), rep, 'drop-vs-remove',
                            params=dict(listeners=(1, 2), ops=TWIN_OPS,
                                        max_ops=4 if tier == 'quick' else 5))
+    rep.require_hits(register_drop_cycles=1)
+    kernel.enumerate_cases(run_leak, leak_cases(), rep, 'registration-leak',
+                           params=dict(cycles=(1, 2, 6), listeners=(1, 2),
+                                       between=('nothing', 'dispatch',
+                                                'toggle')))
     rep.require_hits(release_interrupted_by_raising_callback=1,
                      detached_while_disabled=1)
     kernel.enumerate_cases(run_removal, removal_cases(tier), rep,
@@ -590,6 +653,9 @@ def replay(rec):
     try:
         if rec['part'] == 'drop-vs-remove':
             run_twin(kernel.totuple(rec['case']))
+            return None
+        if rec['part'] == 'registration-leak':
+            run_leak(kernel.totuple(rec['case']))
             return None
         if rec['part'] == 'detached-while-disabled':
             run_removal(kernel.totuple(rec['case']))
